@@ -2791,6 +2791,7 @@ func (s *ImmuStore) ExportTx(txID uint64, allowPrecommitted bool, skipIntegrityC
 		if err == nil {
 			// currently, either all the values are sent or none
 			if isValueTruncated {
+				s._valBsMux.Unlock()
 				return nil, fmt.Errorf("%w: partially truncated transaction", ErrCorruptedData)
 			}
 
@@ -2814,6 +2815,7 @@ func (s *ImmuStore) ExportTx(txID uint64, allowPrecommitted bool, skipIntegrityC
 
 			// currently, either all the values are sent or none
 			if !isValueTruncated && i > 0 {
+				s._valBsMux.Unlock()
 				return nil, fmt.Errorf("%w: partially truncated transaction", ErrCorruptedData)
 			}
 
